@@ -46,7 +46,8 @@ RULE = (
     '(KeyValues2 uses that slot for the attribute type); attribute names casefolding to "name" (that key IS the element '
     'name); two attribute names with equal casefold in one element (the mapping is case-insensitive); stub UUIDs equal '
     'to a real element UUID and two distinct elements with one UUID (UUID is the identity on the wire); a non-STRING or '
-    'deleted "name" attribute; fmt_name with whitespace/non-ASCII (header grammar). Non-trivial = the graph has sharing, '
+    'deleted "name" attribute; fmt_name with whitespace/non-ASCII (header grammar); an all-zero element UUID (that is '
+    'NULL); graphs of more than 40 elements (nested KeyValues2 export/parse recurse per inlined element). Non-trivial = the graph has sharing, '
     'a cycle, a stub/NULL or an array (kv1: >= 2 nodes); distinct = distinct spec content.')
 ASSUMPTIONS = ['pure-Python tokenizer and math classes', 'ValueType has the 14 members of this tree (the statement says 15; '
                'every member present is covered, a new member makes the run inconclusive)',
@@ -849,7 +850,7 @@ def main(run, shard=(0, 1)) -> None:
     _preflight(run)
     probe = _probe()
     probe.start()
-    n_graphs = 150000 if thorough else 6000
+    n_graphs = 100000 if thorough else 6000
     for i in range(n_graphs):
         if not mine(i, shard):
             continue
@@ -860,7 +861,7 @@ def main(run, shard=(0, 1)) -> None:
         if mine(j, shard):
             check_graph(run, sub_rng(run.seed, 'fixed', j), spec, 'fixed', {'engine': 'fixed', 'index': j, 'label': label},
                         all_modes=True, sample=j == 0)
-    n_kv = 150000 if thorough else 5000
+    n_kv = 100000 if thorough else 5000
     for i in range(n_kv):
         if not mine(i, shard):
             continue
